@@ -36,7 +36,7 @@ class SimCrash(BaseException):
 _ERR = {name: getattr(errno, name) for name in (
     "ENOSPC", "EDQUOT", "EIO", "EACCES", "EROFS", "EMFILE", "ENOENT",
     "ENOTDIR", "EISDIR", "EEXIST", "ENOTEMPTY", "EINVAL", "EBADF", "EINTR",
-    "EOPNOTSUPP")}
+    "EOPNOTSUPP", "EPERM")}
 
 # errnos plausible per raw-call kind (used by fault enumeration)
 PLAUSIBLE = {
@@ -51,6 +51,7 @@ PLAUSIBLE = {
     "rmdir": ["EACCES", "EIO"],
     "listdir": ["EACCES", "EIO"],
     "rename": ["EACCES", "EIO", "ENOSPC"],
+    "link": ["EACCES", "EIO", "ENOSPC"],
     "truncate": ["EIO", "ENOSPC"],
     "fsync": ["EIO"],
 }
@@ -333,6 +334,20 @@ class SimFS:
                 self.dirs[d + q[len(s):]] = True
         else:
             raise oserror("ENOENT", src)
+        self._after(act)
+
+    def link(self, src, dst):
+        s = self._resolve(src)
+        d = self._resolve(dst)
+        act = self._call("link", s, d)
+        if s in self.dirs:
+            raise oserror("EPERM", src)
+        if s not in self.files:
+            raise oserror("ENOENT", src)
+        if d in self.files or d in self.dirs:
+            raise oserror("EEXIST", dst)
+        self._need_dir(d.rsplit("/", 1)[0])
+        self.files[d] = self.files[s]       # one node, two names
         self._after(act)
 
     def _after(self, act):
@@ -912,6 +927,120 @@ def _sim_rename(src, dst, *, src_dir_fd=None, dst_dir_fd=None):
                            dst_dir_fd=dst_dir_fd)
 
 
+def _sim_link(src, dst, *, src_dir_fd=None, dst_dir_fd=None,
+              follow_symlinks=True):
+    if _is_sim(src) or _is_sim(dst):
+        if not (_is_sim(src) and _is_sim(dst)):
+            raise HarnessError("link across the SimFS boundary")
+        return current().link(_s(src), _s(dst))
+    return _ORIG["link"](src, dst, src_dir_fd=src_dir_fd,
+                         dst_dir_fd=dst_dir_fd,
+                         follow_symlinks=follow_symlinks)
+
+
+class _SimDirEntry:
+    def __init__(self, fs, parent, name):
+        self.name = name
+        self.path = parent.rstrip("/") + "/" + name
+        self._fs = fs
+
+    def __fspath__(self):
+        return self.path
+
+    def is_dir(self, *, follow_symlinks=True):
+        return self._fs._resolve(self.path) in self._fs.dirs
+
+    def is_file(self, *, follow_symlinks=True):
+        return self._fs._resolve(self.path) in self._fs.files
+
+    def is_symlink(self):
+        return False
+
+    def is_junction(self):
+        return False
+
+    def stat(self, *, follow_symlinks=True):
+        return self._fs.stat(self.path)
+
+    def inode(self):
+        return 0
+
+
+class _SimScandir:
+    def __init__(self, entries):
+        self._it = iter(entries)
+
+    def __iter__(self):
+        return self
+
+    def __next__(self):
+        return next(self._it)
+
+    def close(self):
+        self._it = iter(())
+
+    def __enter__(self):
+        return self
+
+    def __exit__(self, *exc):
+        self.close()
+        return False
+
+
+def _sim_scandir(path="."):
+    if _is_sim(path):
+        fs = current()
+        p = _s(path)
+        return _SimScandir([_SimDirEntry(fs, p, n) for n in fs.listdir(p)])
+    return _ORIG["scandir"](path)
+
+
+def _sim_rmtree(path, ignore_errors=False, onerror=None, *, onexc=None,
+                dir_fd=None):
+    """shutil.rmtree on a SimFS path: the portable (non-fd) algorithm --
+    list, unlink files, recurse, rmdir -- as raw calls."""
+    if not _is_sim(path):
+        return _ORIG["rmtree"](path, ignore_errors, onerror, onexc=onexc,
+                               dir_fd=dir_fd)
+
+    def fail(fn, pth, exc):
+        if ignore_errors:
+            return
+        if onexc is not None:
+            onexc(fn, pth, exc)
+        elif onerror is not None:
+            onerror(fn, pth, (type(exc), exc, exc.__traceback__))
+        else:
+            raise exc
+
+    def walk(p):
+        try:
+            names = os.listdir(p)
+        except OSError as exc:
+            fail(os.scandir, p, exc)
+            names = []
+        for n in names:
+            q = p.rstrip("/") + "/" + n
+            isdir = False
+            try:
+                import stat as _stat
+                isdir = _stat.S_ISDIR(os.lstat(q).st_mode)
+            except OSError:
+                pass
+            if isdir:
+                walk(q)
+            else:
+                try:
+                    os.unlink(q)
+                except OSError as exc:
+                    fail(os.unlink, q, exc)
+        try:
+            os.rmdir(p)
+        except OSError as exc:
+            fail(os.rmdir, p, exc)
+    walk(_s(path))
+
+
 def _unsupported(name):
     def f(path, *a, **kw):
         if _is_sim(path):
@@ -968,8 +1097,14 @@ def install():
     os.listdir = _sim_listdir
     os.rename = _sim_rename
     os.replace = _sim_rename
-    sc = _unsupported("scandir")
-    os.scandir = sc
+    os.scandir = _sim_scandir
+    _ORIG["link"] = os.link
+    os.link = _sim_link
+    import shutil
+    _ORIG["rmtree"] = shutil.rmtree
+    _sim_rmtree.avoids_symlink_attacks = getattr(
+        shutil.rmtree, "avoids_symlink_attacks", False)
+    shutil.rmtree = _sim_rmtree
     for name in ("close", "write", "read", "lseek", "fstat", "ftruncate"):
         _ORIG["os." + name] = getattr(os, name)
     # tempfile binds os.unlink as a default argument at import time
